@@ -352,7 +352,7 @@ impl Property for C02 {
                     &tc,
                     &built.sigs,
                     &fspec,
-                    &RunOpts { max_next: 400, continue_after_driver_error: true, continue_after_error: malformed, fuel: fuel_for(t.facts.steps), ..Default::default() },
+                    &RunOpts { max_next: 400, extra_after_end: 2, continue_after_driver_error: true, continue_after_error: malformed, fuel: fuel_for(t.facts.steps), ..Default::default() },
                 );
                 out.put("fault", format!("{} at call {} (item {k}), caller keeps iterating", if malformed { "malformed answer" } else { "driver fails" }, k + 1));
                 for (i, item) in faulty.items.iter().enumerate() {
@@ -383,6 +383,21 @@ impl Property for C02 {
                 }
                 if !check_positions(&faulty, &mut out) {
                     return out;
+                }
+                // the end is the end in a run with an error item too: once next() has returned None, later calls return
+                // None and send nothing
+                if faulty.ended {
+                    out.class("polled-after-none-in-a-run-with-an-error-item");
+                    let m = faulty.items.len();
+                    let base = faulty.log_len_before[m];
+                    if faulty.log_len_before[m..].iter().any(|l| *l != base) {
+                        out.fail("c02:call-after-none", format!("a driver call was made after next() had returned None (run with an error item at {k}, caller kept iterating)"));
+                        return out;
+                    }
+                    if faulty.after_end.iter().any(|b| !*b) {
+                        out.fail("c02:some-after-none", format!("next() returned Some after it had returned None (run with an error item at {k}, caller kept iterating)"));
+                        return out;
+                    }
                 }
             }
         }
